@@ -648,3 +648,129 @@ class Adaptors:
                 return False
             ss[bx] = cur
         return st.replace(ss=fz(ss))
+
+
+def group_of(box):
+    """(map expr, next-site) if `box` is named by an element of a loop over a local hash container."""
+    eo = elem_of(box)
+    if eo is None:
+        return None
+    elem, it = eo
+    src = iter_source(it)
+    if src is None or src[0] != "map":
+        return None
+    site = None
+
+    def pred(x):
+        nonlocal site
+        if x[0] == "call" and x[2] == "core::iter::Iterator::next" and site is None:
+            site = x[1]
+            return True
+        return False
+    mentions(elem, pred)
+    return src[1], site
+
+
+class GroupPhases:
+    """Phase discipline of group teardown (TS-2 / TS-3 / TS-5 across the loops over the trace map):
+    values of members are destroyed only after the lowering loop is complete and never followed by
+    more lowering; implicit weaks of members are released only after every moved-out value was
+    destroyed, outside the loop that moves values out; what is moved out is destroyed and released."""
+    id = "GROUP"
+
+    def __init__(self):
+        self.moveout_maps = set()
+        self.release_maps = set()
+        self.sites = {}
+
+    def on_variant(self, eng, st, inner, v, b):
+        if inner[0] != "call" or inner[2] != "core::iter::Iterator::next":
+            return None
+        src = iter_source(inner[3][0])
+        if src is None or src[0] != "map":
+            return None
+        M, N = src[1], inner[1]
+        if v == "1":
+            return add(st, ("in_loop", M, N))
+        if v == "0":
+            return rem(st, lambda f: f[0] == "in_loop" and f[1] == M and f[2] == N)
+        return None
+
+    def on_set(self, eng, ev, st):
+        g = group_of(ev.box)
+        if g is None:
+            return None
+        M, N = g
+        if ev.field == "strong" and ev.cls in ("dec", "zero", "other"):
+            eng.obl("TS-2", "group-lowering-order", ev.b)
+            if ("group_destroyed", M) in st.flags or ("member_destroyed", M) in st.flags:
+                eng.violate("TS-2", "lowering-after-destruction", "group teardown lowers a member's strong count after values of the group have already been destroyed (their destructors saw that member alive)", ev.b, st)
+            return add(st, ("lowered_in", M, N))
+        if ev.field == "weak" and ev.cls == "dec":
+            self.release_maps.add(M)
+            eng.obl("TS-3", "group-release-order", ev.b)
+            for f in st.flags:
+                if f[0] == "holds_members" and f[2] == M:
+                    eng.violate("TS-3", "group-release-before-destroy", "the implicit weak of a group member is released while values moved out of the group are still waiting to be destroyed (their destructors will drop handles to members whose allocations may already be freed)", ev.b, st)
+                    return None
+            if ("moved_members", M) in st.flags and ("group_destroyed", M) not in st.flags:
+                eng.violate("TS-3", "group-release-before-destroy", "the implicit weak of a group member is released before the values moved out of the group have all been destroyed", ev.b, st)
+        return None
+
+    def on_moveout(self, eng, ev, st):
+        g = group_of(ev.box)
+        if g is None:
+            return None
+        M, N = g
+        self.moveout_maps.add(M)
+        return add(st, ("moved_members", M), ("moved_in", M, N), ("mv_group", ev.res, M))
+
+    def on_vec(self, eng, ev, st):
+        if ev.op in ("push", "insert", "extend") and len(ev.args) >= 2:
+            C = mk_deref(ev.args[0])
+            fl = []
+            for f in st.flags:
+                if f[0] == "mv_group" and sub(ev.args[-1], f[1]):
+                    fl.append(("holds_members", C, f[2]))
+            if fl:
+                return add(st, *fl)
+        return None
+
+    def _destroy(self, eng, ev, st):
+        v = ev.get("value")
+        if v is None:
+            return None
+        out = None
+        for f in list(st.flags):
+            if f[0] == "holds_members" and (v == f[1] or sub(v, f[1])):
+                M = f[2]
+                eng.obl("TS-2", "group-destroy-order", ev.b)
+                self._check_destroy(eng, ev, st, M)
+                st = rem(st, lambda g: g == f)
+                inside = any(g[0] == "in_loop" and g[1] == M and ("moved_in", M, g[2]) in st.flags for g in st.flags)
+                st = add(st, ("member_destroyed", M) if inside else ("group_destroyed", M))
+                out = st
+            elif f[0] == "mv_group" and (v == f[1] or sub(v, f[1])) and ev.kind == "user":
+                M = f[2]
+                eng.obl("TS-2", "group-destroy-order", ev.b)
+                self._check_destroy(eng, ev, st, M)
+                st = add(st, ("member_destroyed", M))
+                out = st
+        return out
+
+    def _check_destroy(self, eng, ev, st, M):
+        for g in st.flags:
+            if g[0] == "in_loop" and g[1] == M and ("lowered_in", M, g[2]) in st.flags:
+                eng.violate("TS-2", "destruction-inside-lowering-loop", "values of group members are destroyed inside the loop that lowers the members' strong counts: members visited later are still counted alive while these destructors run", ev.b, st)
+
+    on_user = _destroy
+    on_libdrop = _destroy
+
+    def finish(self, eng):
+        for M in self.moveout_maps:
+            if M not in self.release_maps and eng.name.endswith("::drop"):
+                # static existence: contents are moved out of group members but no site releases members of that map
+                key = ("TS-5", "group-never-released")
+                if key not in eng.violations:
+                    eng.violations[key] = {"rule": "TS-5", "key": "group-never-released", "msg": "values are moved out of the members of a collected group, but no code releases those members' implicit weak references (their allocations are never freed)",
+                                           "where": eng.where(0), "entry": eng.name, "path": []}
